@@ -94,4 +94,11 @@ def check(pid, tier, replay):
         c["evaluations"] += c2["evaluations"]
         c["handshake_scripts"] = c2["traces_validated_against_impl"]
         c["rule"] += "; plus the successful SASL exchanges of SaslGen.tla against a live listener, frame by frame and with the whole client side written in one piece"
+        # 5. incoming frames above the size the peer itself advertised but within what the endpoint advertised, against a live endpoint
+        from props import endpoint
+        ev3 = endpoint.run(pid, tier, None, ("C06_", "C10_Exact", "C10_NoSpuriousError", "C12_NoSpontaneousError"), [],
+                           [("endpoint/BigFrameGen", "endpoint/BigFrameGen_c.cfg"), ("endpoint/BigFrameGen", "endpoint/BigFrameGen_l.cfg")], "", verdict=verdict, finish=False)
+        c["traces_validated_against_impl"] += ev3["coverage"]["traces_validated_against_impl"]
+        c["evaluations"] += ev3["coverage"]["evaluations"]
+        c["rule"] += "; plus single-frame deliveries of 300 .. 3000 bytes from a peer that advertised max-frame-size 512 to an endpoint that advertised 4096 (client and listener)"
     verdict.finish(ev)
